@@ -16,7 +16,20 @@ TIMEOUT_MS = int(os.environ.get("PYVC_TIMEOUT_MS", "20000"))
 GLOBAL_FUNS = {"SUM", "POW", "MINF", "MAXF", "ARGMIN", "ARGMAX", "STD", "MEAN", "IDXOF"}
 
 
+_SYM_CACHE = {}
+
+
 def symbols(f, limit=4000):
+    """uninterpreted symbols of a term (memoised per z3 AST; the entry keeps the term alive so that its id is not reused)"""
+    hit = _SYM_CACHE.get(f.get_id())
+    if hit is not None and hit[0].eq(f):
+        return set(hit[1])
+    out = _symbols(f, limit)
+    _SYM_CACHE[f.get_id()] = (f, frozenset(out))
+    return set(out)
+
+
+def _symbols(f, limit=4000):
     out, seen, stack, n = set(), set(), [f], 0
     while stack and n < limit:
         x = stack.pop()
@@ -34,7 +47,19 @@ def symbols(f, limit=4000):
     return out
 
 
+_DEF_CACHE = {}
+
+
 def _defines(h):
+    hit = _DEF_CACHE.get(h.get_id())
+    if hit is not None and hit[0].eq(h):
+        return hit[1]
+    d = _defines0(h)
+    _DEF_CACHE[h.get_id()] = (h, d)
+    return d
+
+
+def _defines0(h):
     """if h is a definitional axiom (forall k. A[k] == body) or (c == term) return the defined symbol"""
     if z3.is_quantifier(h) and h.is_forall() and h.num_vars() == 1:
         b = h.body()
@@ -90,10 +115,16 @@ def relevant_hyps(ob, mode):
     return [hyps[i] for i in sorted(keep)]
 
 
-def _ground_selects(fs):
-    """(array constant name, index term) of every array read over a ground index in the given formulas"""
-    out = {}
-    seen, stack = set(), list(fs)
+_GS_CACHE = {}
+_QR_CACHE = {}
+
+
+def _ground_selects_one(f):
+    hit = _GS_CACHE.get(f.get_id())
+    if hit is not None and hit[0].eq(f):
+        return hit[1]
+    out = []
+    seen, stack = set(), [f]
     while stack:
         x = stack.pop()
         if x.get_id() in seen:
@@ -103,9 +134,39 @@ def _ground_selects(fs):
             continue
         if z3.is_app(x):
             if x.decl().kind() == z3.Z3_OP_SELECT and z3.is_const(x.arg(0)) and x.arg(0).decl().kind() == z3.Z3_OP_UNINTERPRETED:
-                out.setdefault(x.arg(0).decl().name(), {})[x.arg(1).get_id()] = x.arg(1)
+                out.append((x.arg(0).decl().name(), x.arg(1).get_id(), x.arg(1)))
             stack.extend(x.children())
+    _GS_CACHE[f.get_id()] = (f, out)
     return out
+
+
+def _ground_selects(fs):
+    """(array constant name, index term) of every array read over a ground index in the given formulas"""
+    out = {}
+    for f in fs:
+        for name, i, t in _ground_selects_one(f):
+            out.setdefault(name, {})[i] = t
+    return out
+
+
+def _quant_reads(q):
+    """array reads in the body of a quantified hypothesis (memoised)"""
+    hit = _QR_CACHE.get(q.get_id())
+    if hit is not None and hit[0].eq(q):
+        return hit[1]
+    reads = []
+    st_, seen = [q.body()], set()
+    while st_:
+        x = st_.pop()
+        if x.get_id() in seen or z3.is_quantifier(x):
+            continue
+        seen.add(x.get_id())
+        if z3.is_app(x):
+            if x.decl().kind() == z3.Z3_OP_SELECT and z3.is_const(x.arg(0)) and x.arg(0).decl().kind() == z3.Z3_OP_UNINTERPRETED:
+                reads.append((x.arg(0).decl().name(), x.arg(1)))
+            st_.extend(x.children())
+    _QR_CACHE[q.get_id()] = (q, reads)
+    return reads
 
 
 def _split_affine(t):
@@ -118,9 +179,36 @@ def _split_affine(t):
             rest = terms[:i] + terms[i + 1:]
             b = z3.IntVal(0) if not rest else (rest[0] if len(rest) == 1 else z3.Sum(rest))
             a, c = m.arg(0), m.arg(1)
-            cands.append((a, c, b))
-            cands.append((c, a, b))
+            for a_, c_ in ((a, c), (c, a)):
+                cands.append((a_, c_, b))
+                # the same index seen from the neighbouring blocks: (a-1)*c + (b+c), (a+1)*c + (b-c)
+                cands.append((z3.simplify(a_ - 1), c_, z3.simplify(b + c_)))
+                cands.append((z3.simplify(a_ + 1), c_, z3.simplify(b - c_)))
     return cands
+
+
+def _has_var(t):
+    st_, seen = [t], set()
+    while st_:
+        x = st_.pop()
+        if x.get_id() in seen:
+            continue
+        seen.add(x.get_id())
+        if z3.is_var(x):
+            return True
+        if z3.is_app(x):
+            st_.extend(x.children())
+    return False
+
+
+def _solve_offset(idx, gi):
+    """idx = v + c  (v the bound variable, c ground): the value of v for which idx equals the ground index gi"""
+    if z3.is_app(idx) and idx.decl().kind() == z3.Z3_OP_ADD:
+        vs = [a for a in idx.children() if z3.is_var(a)]
+        rest = [a for a in idx.children() if not z3.is_var(a)]
+        if len(vs) == 1 and rest and not any(_has_var(r) for r in rest):
+            return z3.simplify(gi - (rest[0] if len(rest) == 1 else z3.Sum(rest)))
+    return None
 
 
 def skolemize(goal):
@@ -134,7 +222,7 @@ def skolemize(goal):
     return g, consts
 
 
-def pre_instantiate(hyps, goal, rounds=2, cap=160):
+def pre_instantiate(hyps, goal, rounds=2, cap=160, parts=False):
     """instances of the quantified hypotheses at the array indices that actually occur (a small, explicit E-matching round):
     a hypothesis  forall v. ... A[v] ...  is instantiated at every ground index of A; one of the form
     forall k, j. ... A[k*c + j] ...  at every ground index of A that has the shape a*c + b.  Instances of hypotheses are
@@ -144,27 +232,50 @@ def pre_instantiate(hyps, goal, rounds=2, cap=160):
     for h in hyps:
         flat.extend(h.children() if z3.is_and(h) else [h])
     hyps = flat
-    ground = [h for h in hyps if not z3.is_quantifier(h)] + [g0]
-    inst, seen_inst = [], set()
+    ground_all = [h for h in hyps if not z3.is_quantifier(h)]
     quants = [h for h in hyps if z3.is_quantifier(h) and h.is_forall() and h.num_vars() <= 2]
+    # goal-directed seed: the goal and the ground facts connected to it through rare symbols (definitions of the constants it
+    # mentions, ...); instances for these come first, the undirected ones fill what is left of the budget
+    syms = [symbols(h) for h in ground_all]
+    count = {}
+    for ss in syms:
+        for x in ss:
+            count[x] = count.get(x, 0) + 1
+    common = {x for x, c in count.items() if c > max(8, 0.3 * len(ground_all))}
+    S = symbols(g0) - common
+    keep = set()
+    for _round in range(2):
+        new_k = {i for i, ss in enumerate(syms) if i not in keep and (ss - common) & S and len(ss) <= 40}
+        if not new_k:
+            break
+        keep |= new_k
+        for i in new_k:
+            S |= syms[i] - common
+    directed = [ground_all[i] for i in sorted(keep)] + [g0]
+    seen_inst = set()
+    first = _instantiate(quants, directed, rounds + 1, cap, seen_inst)
+    rest = _instantiate(quants, ground_all + [g0] + first, rounds, max(0, cap - len(first)), seen_inst) if len(first) < cap else []
+    if parts:
+        # the minimal core: instances at the goal's own array reads / applications only (one round, then one more on what
+        # these produced), and the small ground facts (bounds, branch conditions, definitions of the goal's constants)
+        tiny = _instantiate(quants, [g0], 2, 60, set())
+        gsym = symbols(g0)
+        small = [h for i, h in enumerate(ground_all) if (len(syms[i]) <= 6 and len(h.sexpr()) < 400) or (i in keep and (syms[i] & gsym) and len(syms[i]) <= 14)]
+        return small, tiny, first, rest
+    return first + rest
+
+
+def _instantiate(quants, ground, rounds, cap, seen_inst):
+    inst, pairwise = [], []
+    if cap <= 0:
+        return []
     for _ in range(rounds):
         sel = _ground_selects(ground + inst)
         new = []
         for q in quants:
             nv = q.num_vars()
             body = q.body()
-            # array reads in the body whose index mentions bound variables
-            reads = []
-            st_, seen = [body], set()
-            while st_:
-                x = st_.pop()
-                if x.get_id() in seen or z3.is_quantifier(x):
-                    continue
-                seen.add(x.get_id())
-                if z3.is_app(x):
-                    if x.decl().kind() == z3.Z3_OP_SELECT and z3.is_const(x.arg(0)) and x.arg(0).decl().kind() == z3.Z3_OP_UNINTERPRETED:
-                        reads.append((x.arg(0).decl().name(), x.arg(1)))
-                    st_.extend(x.children())
+            reads = _quant_reads(q)
             # pairwise facts  forall i, j. ... A[i] ... A[j] ...  (monotonicity): all pairs of the ground indices of A (few)
             if nv == 2:
                 single = [(arr, idx) for arr, idx in reads if z3.is_var(idx)]
@@ -176,14 +287,18 @@ def pre_instantiate(hyps, goal, rounds=2, cap=160):
                             if g1.eq(g2):
                                 continue
                             f = z3.substitute_vars(body, g1, g2)
-                            if f.get_id() not in seen_inst:
+                            if f.get_id() not in seen_inst and len(pairwise) < 40:
                                 seen_inst.add(f.get_id())
-                                new.append(f)
+                                pairwise.append(f)
             for arr, idx in reads:
                 for gi in list(sel.get(arr, {}).values()):
                     subs = []
                     if nv == 1 and z3.is_var(idx):
                         subs.append([gi])
+                    elif nv == 1:
+                        v = _solve_offset(idx, gi)
+                        if v is not None:
+                            subs.append([v])
                     elif nv == 2 and z3.is_app(idx) and idx.decl().kind() == z3.Z3_OP_ADD and idx.num_args() == 2:
                         # idx = v_hi * c + v_lo   (de Bruijn: var 1 is the first bound variable)
                         m, lo = idx.arg(0), idx.arg(1)
@@ -212,7 +327,30 @@ def pre_instantiate(hyps, goal, rounds=2, cap=160):
         if not new:
             break
         inst.extend(new[: cap - len(inst)])
-    return inst
+    return inst + pairwise      # pairwise (monotonicity) instances last, with their own small budget
+
+
+_QF_CACHE = {}
+
+
+def _quantifier_free(f):
+    hit = _QF_CACHE.get(f.get_id())
+    if hit is not None and hit[0].eq(f):
+        return hit[1]
+    ok = True
+    st_, seen = [f], set()
+    while st_:
+        x = st_.pop()
+        if x.get_id() in seen:
+            continue
+        seen.add(x.get_id())
+        if z3.is_quantifier(x):
+            ok = False
+            break
+        if z3.is_app(x):
+            st_.extend(x.children())
+    _QF_CACHE[f.get_id()] = (f, ok)
+    return ok
 
 
 def definition_hyps(ob):
@@ -244,12 +382,18 @@ def definition_hyps(ob):
     return [hyps[i] for i in sorted(keep)]
 
 
-def to_smt2(ob, extra_axioms=(), hyps=None, plain=False):
+def to_smt2(ob, extra_axioms=(), hyps=None, plain=False, som=False):
     s = z3.Solver()
+    # som: polynomial normal form (sum of monomials) for every term, so that equal index polynomials such as (k+1)*n + j and
+    # k*n + n + j become the same term (used for the quantifier-free variants, where nothing else would identify them cheaply)
+    norm = (lambda f: z3.simplify(f, som=True)) if som else (lambda f: f)
     for h in (ob.hyps if hyps is None else hyps):
-        s.add(h)
+        s.add(norm(h))
     for a in extra_axioms:
-        s.add(a)
+        s.add(norm(a))
+    if som:
+        s.add(norm(z3.Not(ob.goal_sk)))
+        return s.to_smt2()
     # universally quantified goals are proved for fresh constants (forall-introduction); the explicit instances added by
     # pre_instantiate talk about exactly these constants
     s.add(z3.Not(getattr(ob, "goal_sk", None) if getattr(ob, "goal_sk", None) is not None and not plain else ob.goal))
@@ -263,15 +407,15 @@ def _uses(ob, name):
 
 Z3_CLI = os.environ.get("PYVC_Z3", "z3-new")
 # first pass: everything in parallel, short budgets.  "x@api" = the same query through z3's Python API in a child process
-SCHEDULE = (("defs", 0, 2), ("rel2", 0, 3), ("all", 0, 4), ("all@api", 0, 4), ("rel2@api", 1, 3), ("all@api!nombqi", 1, 3), ("rel2", 2, 3),
+SCHEDULE = (("defs", 0, 2), ("core", 0, 3), ("core!nlsat", 0, 3), ("ground!nlsat", 0, 3), ("ground", 0, 4), ("rel2", 0, 3), ("all", 0, 4), ("all@api", 0, 4), ("rel2@api", 1, 3), ("all@api!nombqi", 1, 3), ("rel2", 2, 3),
             ("rel20", 0, 3), ("all0", 0, 4), ("defs0", 0, 2), ("all", 3, 3), ("rel2@api!nombqi", 4, 3), ("all@api", 5, 3), ("rel1", 7, 3), ("all!nombqi", 6, 3), ("rel3@api", 8, 3))
 # many short attempts: for the quantified queries generated here a proof, when the instantiation order is favourable, is found
 # within a second or two; an unfavourable order is not helped by waiting, but by another seed / hypothesis selection / front end
 
 # second pass: only what is still undecided (at most FAIL_CAP obligations per clause), few at a time, long budgets
-RETRY_SCHEDULE = (("all@api", 10, 20), ("all", 11, 15), ("all0", 3, 15), ("rel20", 2, 10), ("all0@api", 1, 15), ("defs", 7, 8), ("rel3@api!nombqi", 12, 8), ("rel2@api", 13, 10), ("all!nombqi", 42, 10),
+RETRY_SCHEDULE = (("core", 1, 20), ("core!nlsat", 0, 15), ("ground!nlsat", 0, 15), ("ground", 1, 20), ("all@api", 10, 20), ("all", 11, 15), ("all0", 3, 15), ("rel20", 2, 10), ("all0@api", 1, 15), ("defs", 7, 8), ("rel3@api!nombqi", 12, 8), ("rel2@api", 13, 10), ("all!nombqi", 42, 10),
                   ("rel1@api", 14, 10), ("all@api", 15, 30))
-FALSE_GOAL_SCHEDULE = (("all", 0, 4),)      # `pc => False` (an exceptional edge that must be unreachable): quick, a refutation needs a model anyway
+FALSE_GOAL_SCHEDULE = (("all", 0, 4), ("all@api", 1, 8), ("all", 2, 12))      # `pc => False` (an exceptional edge that must be unreachable): quick, a refutation needs a model anyway
 
 
 def _run(args):
@@ -290,6 +434,7 @@ def _run(args):
             f.write(smt)
         paths[k] = pth
     last, info = "unknown", ""
+    extra_paths = []
     try:
         for sel0, seed, secs in sched:
             sel0, _, opt = sel0.partition("!")
@@ -297,6 +442,15 @@ def _run(args):
             if sel not in paths:
                 continue
             path = paths[sel]
+            if opt == "nlsat":
+                if how == "api":
+                    continue
+                npath = path + ".nlsat.smt2"
+                if not os.path.exists(npath):
+                    with open(npath, "w") as f:
+                        f.write(open(path).read().replace("(check-sat)", "(check-sat-using (then simplify solve-eqs qfnra-nlsat))"))
+                    extra_paths.append(npath)
+                path = npath
             if how == "api":
                 cmd = [sys.executable, "-m", "pyvc.z3worker", path, str(secs * 1000), str(seed), opt]
             else:
@@ -308,8 +462,8 @@ def _run(args):
                 out = "timeout"
             first = out.strip().splitlines()[0].strip() if out.strip() else "unknown"
             if first == "unsat":
-                return idx, "unsat", "", (time.time() - t0) * 1000, "z3-5.1" + ("-api" if how == "api" else "") + (f"(seed {seed})" if seed else "") + ("" if sel == "all" else f"[{sel}]")
-            if first == "sat" and sel not in ("all", "all0"):
+                return idx, "unsat", "", (time.time() - t0) * 1000, "z3-5.1" + ("-api" if how == "api" else "") + (f"(seed {seed})" if seed else "") + ("" if sel == "all" and not opt else f"[{sel}{'!' + opt if opt else ''}]")
+            if first == "sat" and (sel not in ("all", "all0") or opt == "nlsat"):
                 continue                  # a model of a weakened query proves nothing
             if first == "sat":
                 if how == "api":
@@ -322,7 +476,7 @@ def _run(args):
                 return idx, "sat", m[:6000], (time.time() - t0) * 1000, "z3-5.1"
             last, info = "unknown", first
     finally:
-        for pth in paths.values():
+        for pth in list(paths.values()) + extra_paths:
             os.unlink(pth)
     return idx, last, info, (time.time() - t0) * 1000, "z3-5.1"
 
@@ -384,12 +538,15 @@ def prepare(ob):
         from . import oslib
         extra += oslib.axioms()
     extra0 = list(extra)
+    core_ground, inst_tiny = None, None
     if not ob.kind.startswith("canary") and ob.kind != "lemma" and any(z3.is_quantifier(h) or z3.is_and(h) for h in ob.hyps):
         try:
             ob.goal_sk, _ = skolemize(ob.goal)
-            extra = extra + pre_instantiate(ob.hyps, ob.goal_sk)
+            core_ground, inst_tiny, inst_first, inst_rest = pre_instantiate(ob.hyps, ob.goal_sk, parts=True)
+            extra = extra + inst_first + inst_rest
         except z3.Z3Exception:
             ob.goal_sk = None
+            core_ground, inst_tiny = None, None
     if extra:
         smt = to_smt2(ob, extra)
     smts = {"all": smt}
@@ -397,6 +554,14 @@ def prepare(ob):
         for d in (1, 2, 3):
             smts[f"rel{d}"] = to_smt2(ob, extra, hyps=relevant_hyps(ob, d))
         smts["defs"] = to_smt2(ob, extra, hyps=definition_hyps(ob))
+        # quantifier-free core: ground hypotheses + the explicit instances (decided by plain arithmetic / nlsat, no E-matching)
+        gh = [h for h in ob.hyps if _quantifier_free(h)]
+        ge = [h for h in extra if _quantifier_free(h)]
+        if len(gh) + len(ge) >= 1 and getattr(ob, "goal_sk", None) is not None and _quantifier_free(ob.goal_sk):
+            smts["ground"] = to_smt2(ob, ge, hyps=gh, som=True)
+        if core_ground is not None and _quantifier_free(ob.goal_sk):
+            # goal-directed core: only the ground facts connected to the goal and the instances obtained from them
+            smts["core"] = to_smt2(ob, [h for h in extra0 + inst_tiny if _quantifier_free(h)], hyps=[h for h in core_ground if _quantifier_free(h)], som=True)
         if getattr(ob, "goal_sk", None) is not None:
             # the same queries without forall-introduction and explicit instances: the solver's own E-matching order
             smts["all0"] = to_smt2(ob, extra0, plain=True)
